@@ -278,14 +278,18 @@ pub fn c01_withdraw(m: &mut Mon, ctx: &StepCtx, stats: &mut Stats, out: &mut Vec
         let pre_reqs = pre.requests.get(&signer).cloned().unwrap_or_default();
         let (expect, batches) = released_claim_value(&pre_reqs, &post.history);
         let sends: Vec<&CallRec> = o.calls.iter().filter(|c| c.sender == HUB && matches!(c.msg, MsgRec::BankSend { .. })).collect();
-        let mut ok_payout = sends.len() == 1;
-        if let Some(c) = sends.first() {
+        // everything the hub sends goes to the signer, in the staking coin, and sums to the share
+        let mut ok_payout = !sends.is_empty() && expect > 0;
+        let mut total_sent = 0u128;
+        for c in &sends {
             if let MsgRec::BankSend { to, coins } = &c.msg {
-                ok_payout &= *to == signer && coins.len() == 1 && coins[0].0 == DENOM && coins[0].1 == expect && expect > 0;
+                ok_payout &= *to == signer && coins.iter().all(|x| x.0 == DENOM);
+                total_sent += coins.iter().map(|x| x.1).sum::<u128>();
             }
         }
+        ok_payout &= total_sent == expect;
         if !ok_payout {
-            viol(out, "C01", "withdraw_pays_exact_recorded_share", ctx.idx, "hub.WithdrawUnbonded:payout", format!("{} withdrew; expected one transfer of {} to the signer, saw {:?}", signer, expect, sends.iter().map(|c| &c.msg).collect::<Vec<_>>()));
+            viol(out, "C01", "withdraw_pays_exact_recorded_share", ctx.idx, "hub.WithdrawUnbonded:payout", format!("{} withdrew; expected transfers summing to {} to the signer, saw {:?}", signer, expect, sends.iter().map(|c| &c.msg).collect::<Vec<_>>()));
         }
         let attach = ctx.tx.map(|t| t.funds.iter().filter(|c| c.denom == DENOM).map(|c| c.amount.u128()).sum::<u128>()).unwrap_or(0);
         if l_pre + attach != l_post + expect {
